@@ -261,6 +261,36 @@ def collect(ctx, mode):
             groups.setdefault(gk, []).append(rec)
             recs.append(rec)
 
+    # --- identifiers with more than 53 significant bits (grids of 2^18 / 2^20 chunks per
+    # axis; one chunk per shard so that no gap filling is needed) and shard-bit counts
+    # whose total with the other two exceeds the identifier width ---------------------
+    for e, sb_choices in ((18, (54, 53)), (20, (60, 59))):
+        g = 1 << e
+        for sbits in sb_choices:
+            cfg = {"grid": [g, g, g], "pb": 0, "mb": 3 * e - sbits, "sb": sbits, "enc": ctx.rng.choice(["raw", "gzip"])}
+            far = [(g - 1, g - 1, g - 1), (g - 1, g - 2, g - 1), (g - 2, g - 1, g - 1), (1, 0, 0), (0, 0, 0),
+                   (g - 1, 0, g - 1), tuple(ctx.rng.randrange(g) for _ in range(3))]
+            far = sorted(set(far), key=lambda p: sd.morton_ref(cfg["grid"], p))
+            never = [(g - 1, g - 1, g - 2), (0, 1, 0)]
+            salt = ctx.rng.randrange(1 << 30)
+            gk = json.dumps([cfg, "huge-ids", salt])
+            for order in (far, far[::-1]):
+                rec = sd.run_session(work, cfg, order, strategy="in memory", salt=salt,
+                                     fetch_positions=far + never)
+                sd.drop_dir(rec)
+                groups.setdefault(gk, []).append(rec)
+                recs.append(rec)
+    for (pb, mb, sbits) in ((0, 4, 62), (0, 0, 70), (1, 5, 64), (0, 2, 66)):
+        cfg = {"grid": [3, 2, 2], "pb": pb, "mb": mb, "sb": sbits, "enc": "raw"}
+        pos = sd.all_pos(cfg["grid"])
+        ctx.rng.shuffle(pos)
+        gk = json.dumps([cfg, "wide-shard-bits"])
+        for st in ("in memory", "on disk"):
+            rec = sd.run_session(work, cfg, pos, strategy=st, salt=3)
+            sd.drop_dir(rec)
+            groups.setdefault(gk, []).append(rec)
+            recs.append(rec)
+
     framing = set()
     for gk, rs in groups.items():
         hashes = sorted({r["hash"] for r in rs})
